@@ -509,6 +509,12 @@ where
         // check if a connection error occurred on a stream
         let _ = self.poll_connection_error(cx)?;
 
+        // drive a grease stream started by an earlier call
+        if self.send_grease_stream_flag && !matches!(self.grease_step, GreaseStatus::NotStarted(_))
+        {
+            let _ = self.poll_grease_stream(cx);
+        }
+
         let recv = {
             // TODO
             self.poll_accept_recv(cx)?;
@@ -649,7 +655,9 @@ where
             //= https://www.rfc-editor.org/rfc/rfc9114#section-6.2.3
             //# They MAY also be
             //# sent on connections where no data is currently being transferred.
-            ready!(self.poll_grease_stream(cx));
+            // `res` has already been taken off the control stream and must be returned
+            // now; an unfinished grease stream is driven further by the next calls.
+            let _ = self.poll_grease_stream(cx);
         }
 
         Poll::Ready(Ok(res))
